@@ -62,6 +62,10 @@ def main():
         json.dump(m, f, indent=1)
         f.write("\n")
     print("MANIFEST.json: %d checks, %d not claimed" % (len(checks), len(na)))
+    import subprocess
+    rc = subprocess.run([sys.executable, os.path.join(ROOT, "tools", "check_project.py")]).returncode
+    if rc != 0:
+        print("WARNING: some cone files are not in coq/_CoqProject: a fresh build would miss them")
 
 
 if __name__ == "__main__":
